@@ -8,7 +8,7 @@ from checks_conf import CONF, NOT_APPLICABLE
 
 props = [json.loads(l) for l in open(os.path.join(V, "properties.jsonl"))]
 hooks = subprocess.run(["git", "-C", "/repo", "log", "--format=%H %s"], capture_output=True, text=True).stdout.splitlines()
-hook_commits = [l.split()[0] for l in hooks if l.split(" ", 1)[1].startswith("verif hooks")]
+hook_commits = [l.split()[0] for l in hooks if l.split(" ", 1)[1].startswith("verif hook")]
 
 checks = []
 na = []
@@ -35,7 +35,7 @@ m = {
     "setup_cmd": "./setup.sh",
     "hooks": {
         "guard": "verif",
-        "enable": "go build tag: checks compile /repo with `-tags verif` (files verif_hooks.go and cmd/fitgen/verifstringer/main.go carry //go:build verif)",
+        "enable": "go build tag: checks compile /repo with `-tags verif` (files verif_hooks.go, cmd/fitgen/verifstringer/main.go and cmd/fitgen/verifstringer2/main.go carry //go:build verif)",
         "baseline_off_cmd": "cd /repo && GOFLAGS=-mod=mod GOPROXY=off GOSUMDB=off GOTOOLCHAIN=local go test -vet=off -count=1 ./...",
         "source_commits": hook_commits,
         "add_only": True,
